@@ -299,6 +299,33 @@ func judge(evs []lcm.VerifEvent, parsed []porcupine.Event, kind string, seq int,
 					return
 				}
 				run.Count("c07:failed_write_checked_open_ended")
+				// ... and with an outcome the checker may not rely on: the write may or may not have taken effect
+				if pos, ok := retPos[opOf[e.ID]]; ok && !ps[pos].unknown {
+					fail("failed_write_open_ended", "failed-write-given-a-definite-outcome", fmt.Sprintf("the failed write of process %d (operation %d) is closed in the parsed history with a definite outcome: the checker will take it as applied before its return", e.ID, opOf[e.ID]))
+					return
+				}
+			}
+		}
+		// an operation that is still outstanding when the log ends (its completion was never recorded) is closed at the end
+		// of the parsed history, with an unknown outcome as well
+		completed := map[int]bool{}
+		k = 0
+		cur := map[uint64]int{}
+		for _, e := range evs {
+			if e.Result == 0 {
+				cur[e.ID] = k
+				k++
+			} else if e.Result == 1 {
+				completed[cur[e.ID]] = true
+			}
+		}
+		for op := 0; op < k; op++ {
+			if pos, ok := retPos[op]; ok && !completed[op] {
+				run.Count("c07:open_operation_checked_unknown")
+				if !ps[pos].unknown {
+					fail("failed_write_open_ended", "open-operation-given-a-definite-outcome", fmt.Sprintf("operation %d has no recorded completion (failed, or still outstanding when the log ends) and is closed in the parsed history with a definite outcome", op))
+					return
+				}
 			}
 		}
 	}
